@@ -762,7 +762,7 @@ def fill_mir_of_aborted(ctx, exe, cases, res, tag):
     if again:
         r2 = gen_common.run_gen(ctx, exe, again, tag=tag + "ab")
         for c in again:
-            if r2[c["id"]].get("mir"):
+            if r2.get(c["id"], {}).get("mir"):
                 res[c["id"]]["mir"] = r2[c["id"]]["mir"]
 
 
